@@ -4,11 +4,8 @@
    arrays_impurego.go takes, and how the iterator's / builders' own loops relate
    to the helpers. *)
 From CE Require Import Model.Arrays.
-From Coq Require Import ZifyN ZifyNat ZifyBool PreOmega Wf_nat.
+From Coq Require Import ZifyN ZifyNat ZifyBool Wf_nat.
 Open Scope N_scope.
-
-(* lia that sees through div/mod by constants *)
-Ltac dlia := zify; Z.to_euclidean_division_equations; lia.
 
 (* ------------------------------------------------------------------ *)
 (* List facts                                                           *)
@@ -453,7 +450,7 @@ Lemma uuid_slice_of_bytes_of_slice us spare :
   bytes_to_uuid_slice (uuid_slice_to_bytes us) spare = Ok us.
 Proof.
   intro H. unfold bytes_to_uuid_slice, uuid_slice_to_bytes.
-  apply uuid_chunks_concat; [exact H|]. rewrite concat_length16 by exact H. clear H. lia.
+  apply uuid_chunks_concat; [exact H|]. rewrite concat_length16 by exact H. unfold bytes. lia.
 Qed.
 
 (* bytes -> slice: when it returns, the elements are 16 bytes each and their
@@ -493,6 +490,14 @@ Proof.
       + rewrite skipn_length. apply Nat.leb_le in L. lia.
       + rewrite Er. unfold outcome_bind. eexists. reflexivity. }
   apply G; [lia|exact Hm].
+Qed.
+
+Lemma uuid_bytes_roundtrip b spare :
+  (length b mod 16 = 0)%nat ->
+  exists us, bytes_to_uuid_slice b spare = Ok us /\ uuid_slice_to_bytes us = b.
+Proof.
+  intro Hm. destruct (uuid_bytes_to_slice_total b spare Hm) as [us E].
+  exists us. split; [exact E|]. apply (uuid_bytes_of_slice_of_bytes b spare us Hm E).
 Qed.
 
 Lemma uuid_bytes_to_slice_panics b spare :
